@@ -251,6 +251,7 @@ def gen_program(rng, max_calls=8):
     ncalls = rng.randint(1, max_calls)
     calls = []
     written = {}
+    shared = []
     # some groups are first used in a later call only (writer session state: which parents were declared)
     first_call = {g: (rng.randint(1, ncalls - 1) if (ncalls > 1 and rng.random() < 0.35) else 0) for g in groups}
     for ci in range(ncalls):
@@ -266,8 +267,19 @@ def gen_program(rng, max_calls=8):
             if ci < first_call[ch['group']]:
                 continue
             if rng.random() < (0.9 if ci == first_call[ch['group']] and ci > 0 else 0.6):
+                data = gen_channel_data(rng, ch['kind'])
+                if data['form'] in ('nd', 'dt64'):
+                    same = [d_ for d_ in shared if d_['form'] == data['form'] and d_.get('dtype') == data.get('dtype')
+                            and d_.get('unit') == data.get('unit')]
+                    if same and rng.random() < 0.3:
+                        # the caller hands over the very same array object again (one time axis for several channels,
+                        # one block written to two segments): the writer must not have changed it
+                        data = dict(rng.choice(same))
+                    elif rng.random() < 0.25:
+                        data['shared'] = len(shared)
+                        shared.append(data)
                 objs.append({'kind': 'channel', 'group': ch['group'], 'channel': ch['channel'],
-                             'data': gen_channel_data(rng, ch['kind']), 'props': gen_props(rng, light=True)})
+                             'data': data, 'props': gen_props(rng, light=True)})
         # a property assigned earlier is assigned again with the same value through another type
         for o in objs:
             key = (o['kind'], o.get('group'), o.get('channel'))
@@ -323,7 +335,15 @@ def make_value(nptdms, pv):
     raise ValueError(k)
 
 
-def make_data(nptdms, d):
+def make_data(nptdms, d, cache=None):
+    if cache is not None and d.get('shared') is not None:
+        if d['shared'] not in cache:
+            cache[d['shared']] = _make_data(nptdms, d)
+        return cache[d['shared']]
+    return _make_data(nptdms, d)
+
+
+def _make_data(nptdms, d):
     form = d['form']
     if form == 'nd':
         a = np.frombuffer(bytes.fromhex(d['hex']), dtype=d['dtype']).copy()
@@ -359,7 +379,8 @@ def make_data(nptdms, d):
     raise ValueError(form)
 
 
-def make_objects(nptdms, call):
+def make_objects(nptdms, call, cache=None):
+    """cache: per-program dict of array objects that several calls / channels share (the same object, not a copy)."""
     out = []
     for o in call:
         props = None if o.get('props') is None else {name: make_value(nptdms, pv) for name, pv in o['props']}
@@ -368,7 +389,7 @@ def make_objects(nptdms, call):
         elif o['kind'] == 'group':
             out.append(nptdms.GroupObject(o['group'], props))
         else:
-            data = make_data(nptdms, o['data'])
+            data = make_data(nptdms, o['data'], cache)
             if o['data'].get('reassign') and isinstance(data, np.ndarray):
                 first = np.zeros(3, dtype='<f8' if data.dtype.kind != 'f' else '<i2')
                 obj = nptdms.ChannelObject(o['group'], o['channel'], first, props)
